@@ -76,6 +76,7 @@ class Obs:
   def __init__(self):
     self.calls = []          # (callback index, record id, snapshot)
     self.reentry = []        # results of overlapping execute() calls
+    self.depth = 0
 
 
 OBS = Obs()
@@ -95,12 +96,15 @@ def _snapshot(rec, test):
 def _make_cb(i, test_ref):
   def cb(rec):
     OBS.calls.append((i, id(rec), _snapshot(rec, test_ref[0])))
-    if CFG['reenter_cb'] == i:
+    if CFG['reenter_cb'] == i and not OBS.reentry and not OBS.depth:
+      OBS.depth += 1
       try:
         test_ref[0].execute()
         OBS.reentry.append('accepted')
       except TD.InvalidTestStateError:
         OBS.reentry.append('refused')
+      finally:
+        OBS.depth -= 1
     if CFG['raise'][i]:
       raise CallbackBoom('callback %d failed' % i)
   return cb
@@ -108,12 +112,15 @@ def _make_cb(i, test_ref):
 
 def _reenter_phase_factory(test_ref):
   def reenter(test):
-    if CFG['reenter_phase']:
+    if CFG['reenter_phase'] and not OBS.reentry and not OBS.depth:
+      OBS.depth += 1
       try:
         test_ref[0].execute()
         OBS.reentry.append('accepted')
       except TD.InvalidTestStateError:
         OBS.reentry.append('refused')
+      finally:
+        OBS.depth -= 1
   reenter.__name__ = 'reenter'
   return reenter
 
@@ -122,6 +129,10 @@ TESTS = {}
 
 
 def _test(ti):
+  for c in range(3):        # concrete index (a symbolic dict key would be hashed = realised)
+    if ti == c:
+      ti = c
+      break
   if ti not in TESTS:
     ref = [None]
     nodes = [T.build(n) for n in T.ALL[ti]]
@@ -148,11 +159,14 @@ def _ts_terminal(test):
 _TS = (None, _ts_lambda, H.PD.PhaseDescriptor.wrap_or_copy(_ts_phase), H.PD.PhaseDescriptor.wrap_or_copy(_ts_terminal))
 _TS[0] if False else None
 _TS_LAMBDA = lambda: 'dut-from-lambda'      # noqa: E731  (execute() special-cases types.LambdaType)
+for _ti in range(3):
+  _test(_ti)               # built once at import, outside tracing
 
 
 def _execute_once(test, ts, script_setup):
   OBS.calls = []
   OBS.reentry = []
+  OBS.depth = 0
   script_setup()
   start = _TS_LAMBDA if ts == 1 else _TS[ts]
   ret = test.execute(test_start=start)
@@ -272,6 +286,8 @@ def w_callbacks_after_raising_one(r0: bool, r1: bool, r2: bool) -> bool:
 
   def setup():
     H.SCRIPT.reset()
+    for node in T.phases_of(T.ALL[0]):
+      H.SCRIPT.meas[node[1]] = [TC._meas(0)]
   CFG.update({'raise': (r0, r1, r2), 'reenter_cb': -1, 'reenter_phase': False})
   try:
     ret = _execute_once(test, 0, setup)
